@@ -47,8 +47,8 @@ contract(
     loop_vars={"loop#1": {"intervals": "list[(int,int)]", "start": "opt:int", "end": "opt:int", "g_run": "int[N]"}},
     ghost=[
         ("before:for i, val in *", "g_run = lam('int', N, lambda u: 0)"),
-        ("before:intervals.append((start, end))", "g_s0 = start"),
-        ("after:intervals.append((start, end))", "g_run = lam('int', N, lambda u: ite(g_s0 <= u and u < i, len(intervals) - 1, g_run[u]))"),
+        ("before:intervals.append(*", "g_s0 = start"),
+        ("after:intervals.append(*", "g_run = lam('int', N, lambda u: ite(g_s0 <= u and u < i, len(intervals) - 1, g_run[u]))"),
     ],
     props=["C08", "C04"],
 )
@@ -86,7 +86,7 @@ contract(
     loop_vars={"loop#1": {"changepoints": "list[int]", "g_iv": "int[n]", "g_cp": "int[n]"}},
     ghost=[
         ("before:for interval in *", "g_iv = lam('int', n, lambda q: 0)\ng_cp = lam('int', n, lambda r: 0)"),
-        ("after:changepoints.append(cpt)",
+        ("after:changepoints.append(*",
          "g_iv = lam('int', n, lambda q: ite(q == len(changepoints) - 1, _k, g_iv[q]))\n"
          "g_cp = lam('int', n, lambda r: ite(r == _k, len(changepoints) - 1, g_cp[r]))"),
     ],
